@@ -465,22 +465,30 @@ fn stress_stream(k: usize, it: usize) -> Value {
             .collect();
         hs.into_iter().map(|h| h.join().unwrap_or(json!({"res":"panic"}))).collect()
     });
-    let view: ViewModel = opts().deserialize(&bridge.view().unwrap()).unwrap();
-    let log = log_json(&view);
-    let p1 = match bridge.handle_response(id, &opts().serialize(&99u32).unwrap()) {
-        Ok(b) => {
-            let r: Vec<crux_core::bridge::Request<EffectFfi>> = opts().deserialize(&b).unwrap();
-            json!({"res":"ok","effs":r.len()})
-        }
-        Err(e) => json!({"res": format!("{e}")}),
-    };
-    let view2: ViewModel = opts().deserialize(&bridge.view().unwrap()).unwrap();
-    let noop = bridge.process_event(&opts().serialize(&Event::Noop).unwrap()).map(|b| b.len()).unwrap_or(9999);
-    let probe = json!({"late": p1, "log_growth": view2.log.len() - view.log.len(),
-                       "last": log_json(&view2).last().cloned(),
-                       "noop_bytes": noop, "xt": bridge.verif_executor_tasks(),
-                       "reg": bridge.verif_registry().len()});
-    aggregate(&results, &log, &probe)
+    // (whatever the concurrent phase did to the bridge, the probes afterwards must not take the process down:
+    // a panic in them is an outcome like any other)
+    let after = catch_unwind(AssertUnwindSafe(|| {
+        let view: ViewModel = opts().deserialize(&bridge.view().unwrap()).unwrap();
+        let log = log_json(&view);
+        let p1 = match bridge.handle_response(id, &opts().serialize(&99u32).unwrap()) {
+            Ok(b) => {
+                let r: Vec<crux_core::bridge::Request<EffectFfi>> = opts().deserialize(&b).unwrap();
+                json!({"res":"ok","effs":r.len()})
+            }
+            Err(e) => json!({"res": format!("{e}")}),
+        };
+        let view2: ViewModel = opts().deserialize(&bridge.view().unwrap()).unwrap();
+        let noop = bridge.process_event(&opts().serialize(&Event::Noop).unwrap()).map(|b| b.len()).unwrap_or(9999);
+        let probe = json!({"late": p1, "log_growth": view2.log.len() - view.log.len(),
+                           "last": log_json(&view2).last().cloned(),
+                           "noop_bytes": noop, "xt": bridge.verif_executor_tasks(),
+                           "reg": bridge.verif_registry().len()});
+        (log, probe)
+    }));
+    match after {
+        Ok((log, probe)) => aggregate(&results, &log, &probe),
+        Err(_) => aggregate(&results, &[], &json!({"late": {"res": "panic"}})),
+    }
 }
 
 fn stress_core(scenario: &str, k: usize, it: usize) -> Value {
